@@ -113,7 +113,8 @@ def check_C11(tier, seed):
     res = Result("C11", tier, seed, "model_checking")
     wd = workdir("C11")
     insts = universe.semantic_universe(tier, seed + 1100)
-    insts = universe.renumber(insts + universe.mutated_universe(tier, seed + 1100))     # what the frontend still accepts of these must be well-formed too
+    import systematic
+    insts = universe.renumber(insts + systematic.sharedvar_instances(tier, seed) + universe.mutated_universe(tier, seed + 1100))     # what the frontend still accepts of these must be well-formed too
     obs = observe(insts, wd, "ir", seed)
     ji, jo = [], []; rejected = 0
     for inst, o in zip(insts, obs):
